@@ -325,6 +325,9 @@ def async_form_problems(visitor, tree, ph, sc):
                 fails.append(f"`async for` over {ast.unparse(it)[:60]}: not auto_aiter(...) / AsyncLoopContext(...) / a generated async generator")
             if isinstance(it, ast.Call) and emit.call_name(it) == "AsyncLoopContext" and False:
                 pass
+        if (visitor == "For" and isinstance(n, ast.Call) and isinstance(n.func, ast.Name) and n.func.id == "loop" and n.args
+                and isinstance(n.args[0], ast.Call) and emit.call_name(n.args[0]) == "auto_aiter"):
+            fails.append("the start of a recursive loop passes auto_aiter(<iterable>) to loop(): AsyncLoopContext gets an iterator instead of the iterable (sync passes the iterable), so a sized iterable loses its length for len(loop)")
         if isinstance(n, ast.Name) and n.id == "LoopContext":
             fails.append("LoopContext (sync) used in async mode")
     if visitor in AWAITED_VISITORS and isinstance(tree, ast.expr):
@@ -603,6 +606,8 @@ TEMPLATES = {
     "loop_unsized_length_first": "{% for i in ugen %}{{ loop.length }}:{{ loop.last }}:{{ loop.nextitem }}:{{ loop.revindex }};{% endfor %}",
     "loop_filtered_last_then_length": "{% for i in xs if i != 2 %}{{ i }}:{{ loop.last }}:{{ loop.length }}/{{ loop.revindex }}/{{ loop.revindex0 }};{% endfor %}",
     "loop_filtered_unsized_nextitem": "{% for i in ugen if i %}{{ loop.nextitem }}:{{ loop.revindex0 }}:{{ loop.length }};{% else %}none{% endfor %}",
+    "loop_recursive_len_filter": "{% for x in xs recursive %}{{ loop|length }}{% endfor %}",
+    "loop_repr": "{% for x in 'ab' %}{{ loop }}{% endfor %}",
     "loop_unsized_len_filter": "{% for i in ugen %}{{ loop|length }}{% endfor %}",
     "loop_unsized_recursive": "{% for n in (t for t in tree) recursive %}{{ loop.last }}{{ loop.length }}{{ n.v }}{% if n.c %}({{ loop(n.c) }}){% endif %}{% endfor %}" if False else
                               "{% for n in utree recursive %}{{ loop.last }}{{ loop.length }}/{{ loop.revindex }}:{{ n.v }}{% if n.c %}({{ loop(n.c) }}){% endif %}{% endfor %}",
